@@ -674,6 +674,19 @@ func (c *Fn) lt(i ssa.Value, L string, strict bool, at *ssa.BasicBlock, d int) b
 		}
 	case *ssa.Call:
 		n := ssau.CallName(v)
+		// strings.Index*, strings.LastIndex*, bytes.Index*: -1 or a position in
+		// the text (at most len for an empty separator, below len for the
+		// byte / rune / set / predicate forms)
+		if (strings.HasPrefix(n, "strings.Index") || strings.HasPrefix(n, "strings.LastIndex") || strings.HasPrefix(n, "bytes.Index") || strings.HasPrefix(n, "bytes.LastIndex")) && len(v.Common().Args) >= 1 {
+			single := strings.HasSuffix(n, "Byte") || strings.HasSuffix(n, "Any") || strings.HasSuffix(n, "Rune") || strings.HasSuffix(n, "Func")
+			if !strict || single {
+				for _, le := range c.LenExprs(v.Common().Args[0], 0) {
+					if le == L {
+						return true
+					}
+				}
+			}
+		}
 		// slices.Index / IndexFunc / BinarySearch...: -1 or a position in the slice
 		if strings.HasPrefix(n, "slices.Index") && len(v.Common().Args) >= 1 {
 			for _, le := range c.LenExprs(v.Common().Args[0], 0) {
